@@ -115,7 +115,7 @@ structure HAttr where
 def attrStr (kindQ : Bool) (ver : Nat) (a : HAttr) : String :=
   let k := if kindQ then "k-" else s!"k{a.key}"
   let sr := if a.serial == 0 then "-" else toString a.serial
-  let t := if ver < 3 then "-" else match a.ts with | none => "*" | some n => toString n
+  let t := if ver < 3 then "-" else match a.ts with | none => "*" | some 0 => "-" | some n => toString n
   let p := if a.payload == 0 then "-" else "p" ++ toHex [UInt8.ofNat a.payload]
   s!"{k}.c{a.cons}.s{sr}|t{t}.p{p}.r{if a.trace then 1 else 0}|{if a.obs then "o1" else "o0"}|{if kindQ then 0 else a.key}"
 
@@ -235,7 +235,7 @@ def histStep (ver : Nat) (kind consumer : String) (scripts : Scripts) (sts : Sta
     | 'f' => arg.toInt?.map fun n => run1 h (.prefetch n)
     | 'c' => arg.toNat?.bind fun n => if n > 0xffff then none else some (setAttr h { h.attr with cons := n } false)
     | 's' => arg.toNat?.bind fun n => if n > 0xffff then none else some (setAttr h { h.attr with serial := n } false)
-    | 't' => arg.toNat?.bind fun n => if n < 1 || n ≥ 1000000 || ver < 3 then none else some (setAttr h { h.attr with ts := some n } false)
+    | 't' => arg.toNat?.bind fun n => if n ≥ 1000000 || ver < 3 then none else some (setAttr h { h.attr with ts := some n } false)
     | 'p' => arg.toNat?.bind fun n => if n > 255 || ver < 4 then none else some (setAttr h { h.attr with payload := n } false)
     | 'r' => if arg == "0" || arg == "1" then some (setAttr h { h.attr with trace := arg == "1" } false) else none
     | 'o' => if arg == "0" || arg == "1" then some (setAttr h { h.attr with obs := arg == "1" } false) else none
